@@ -301,15 +301,27 @@ def rule_bm_table(ctx):
                 continue
             b0, at0, pol0, cells0, ops0 = onp[-1]
             probe = [o for o in ops0 if not (isinstance(o, ArrSlice) and o.arr.name == keyt)]
-            okk = bool(kst) and bool(probe) and all(_same_source(x.value, probe[0]) for x in kst)
+            okk = bool(kst) and bool(probe) and all(_same_source(x.value, probe[0]) and _whole_slot(x.idx) and _whole_value(x.value) for x in kst)
             X = _probe_length(F, k, b0, at0, cells0)
             okl = bool(lst) and X is not None and all(isinstance(x.value, Num) and x.value.lin == X for x in lst)
             res.append((bool(okk and okl), "the incoming key's bytes and length are stored" if okk and okl else
-                        ("bytes written on replacement are not the incoming key" if not okk else
+                        ("bytes written on replacement are not the whole incoming key slot (a partial copy leaves bytes of the evicted key behind)" if not okk else
                          "length written on replacement is not the incoming key's length"), fact_strs(le)))
         if res:
             agg(ctx, "bm-table", k, k.node, "%s: replacement payload" % k.name,
                 "O2b: a replacement stores the incoming key's bytes and the incoming key's length", res)
+
+
+def _whole_slot(idx):
+    """Index of a key-table write covers the whole key slot: [row, col] or [row, col, :]."""
+    rest = [i for i in idx if not isinstance(i, Num)]
+    return all(isinstance(i, tuple) and i[0] == "slice" and i[1] is None and i[2] is None for i in rest)
+
+
+def _whole_value(v):
+    if isinstance(v, ArrSlice):
+        return _whole_slot(v.idx)
+    return isinstance(v, Arr)
 
 
 def _same_source(v, probe):
@@ -528,6 +540,12 @@ def rule_maxcount(ctx):
     cnt = F.param_for(k, "lhh_count")
     depth_p = F.param_for(k, "depth")
     rets = [e for e in w.events if e.kind == "ret" and not e.implicit]
+    loops0 = [n for n in walk_no_nested(k.node) if isinstance(n, (ast.For, ast.While))]
+    early = [r for r in rets if loops0 and not (r.line > loops0[0].end_lineno and not r.loops)]
+    ctx.ob("scan-all", k, early[0].node if early else k.node, "%s: returns only after the row loop" % k.name,
+           "the count is reported only after every row was examined", not early,
+           "" if not early else "`%s` answers before/inside the loop over the rows" % src(k, early[0].node, 50))
+    rets = [r for r in rets if r not in early]
     accs = {unparse(r.node.value) for r in rets if isinstance(r.node.value, ast.Name)}
     if len(accs) != 1 or not rets:
         ctx.ob("maxcount", k, k.node, "return", "the kernel returns its running maximum", None, "return shape not understood")
